@@ -111,11 +111,11 @@ func parensRight(parent int, child int) bool { return child <= parent }
 func lemma_levels_order() {}
 
 //@ func lemma_levels_order()
-//@   props C03
+//@   props C03 C11
 //@   ensures [levels.order@C03] PrecedenceLowest < PrecedenceAssignment && PrecedenceAssignment < PrecedenceLogicalOr && PrecedenceLogicalOr < PrecedenceLogicalAnd && PrecedenceLogicalAnd < PrecedenceEquality && PrecedenceEquality < PrecedenceComparison && PrecedenceComparison < PrecedenceSum && PrecedenceSum < PrecedenceProduct && PrecedenceProduct < PrecedenceUnary && PrecedenceUnary < PrecedencePostfix && PrecedencePostfix < PrecedenceCall && PrecedenceCall < PrecedenceMember && PrecedenceMember < PrecedenceAtomic
 
 //@ func operatorPrecedence(tokenType)
-//@   props C03 C02
+//@   props C03 C02 C11
 //@   ensures [level@C03] result == astLevel(tokenType)
 
 // ---- the code writer (C06 C08 C15) ----
@@ -196,7 +196,7 @@ func cwInv(cw *CodeWriter) bool {
 
 // emit = append to the buffer and advance the mapper over the same text.
 //@ func (cw *CodeWriter) emit(s)
-//@   props C08 C06 C15
+//@   props C08 C06 C15 C11
 //@   use cwFrame
 //@   ensures [mechanism@C08] fullSeq(evOpt(len(s) > 0, evCall("(*CodeWriter).separateSigns")), evOpt(len(s) > 0 && cw.Mapper != nil, evCall("(*SourceMapper).AdvanceString"))) && implies(len(s) > 0 && cw.Mapper != nil, callArg[string]("(*SourceMapper).AdvanceString", 0, 1) == s)
 //@   ensures [pendings] eq(cw.pendings, old(cw.pendings)) && cw.IndentLevel == old(cw.IndentLevel)
@@ -204,7 +204,7 @@ func cwInv(cw *CodeWriter) bool {
 
 // separateSigns writes a space exactly when the next token would fuse with the last byte written.
 //@ func (cw *CodeWriter) separateSigns(next)
-//@   props C03 C01 C08 C06
+//@   props C03 C01 C08 C06 C11
 //@   requires [cw] cw != nil && cwInv(cw) && J(cw) && NoFusion(cw)
 //@   modifies cw.Builder, cw.lastByte, cw.Mapper.generatedColumn
 //@   ensures [cwinv] cwInv(cw)
@@ -215,19 +215,19 @@ func cwInv(cw *CodeWriter) bool {
 //@   ensures [no-mapping@C08] cw.Mapper == nil || sourcemap.NumMappings(cw.Mapper) == old(sourcemap.NumMappings(cw.Mapper))
 
 //@ func (cw *CodeWriter) clearPending()
-//@   props C06 C08
+//@   props C06 C08 C11
 //@   requires [cw] cw != nil
 //@   modifies cw.pendings
 //@   ensures [cleared] len(cw.pendings) == 0
 
 //@ func (cw *CodeWriter) writeNewline()
-//@   props C06 C08 C15
+//@   props C06 C08 C15 C11
 //@   use cwFrame
 //@   ensures [pendings] eq(cw.pendings, old(cw.pendings)) && cw.IndentLevel == old(cw.IndentLevel)
 //@   ensures [no-mapping@C08] cw.Mapper == nil || sourcemap.NumMappings(cw.Mapper) == old(sourcemap.NumMappings(cw.Mapper))
 
 //@ func (cw *CodeWriter) writeIndent()
-//@   props C06 C08 C15
+//@   props C06 C08 C15 C11
 //@   use cwFrame
 //@   loop 1 invariant [frame] cwInv(cw) && J(cw) && NoFusion(cw) && eq(cw.pendings, old(cw.pendings)) && cw.IndentLevel == old(cw.IndentLevel) && (cw.Mapper == nil || sourcemap.NumMappings(cw.Mapper) == old(sourcemap.NumMappings(cw.Mapper)))
 //@   ensures [pendings] eq(cw.pendings, old(cw.pendings)) && cw.IndentLevel == old(cw.IndentLevel)
@@ -236,7 +236,7 @@ func cwInv(cw *CodeWriter) bool {
 // flushPending writes each deferred layout character once, in order (a tab stands for the current indentation), then
 // forgets them.
 //@ func (cw *CodeWriter) flushPending()
-//@   props C06 C08 C15
+//@   props C06 C08 C15 C11
 //@   use cwFrame
 //@   loop 1 before [mechanism@C06] fullSeq()
 //@   loop 1 each [mechanism@C06] fullSeq(evOpt(ch == '\t', evCall("(*CodeWriter).writeIndent")), evOpt(ch != '\t', evCall("(*CodeWriter).emit")))
@@ -248,7 +248,7 @@ func cwInv(cw *CodeWriter) bool {
 
 // WriteString = flush the deferred layout, then the text (both through emit, which advances the mapper).
 //@ func (cw *CodeWriter) WriteString(s)
-//@   props C06 C08 C15 C01
+//@   props C06 C08 C15 C01 C11
 //@   use cwFrame
 //@   ensures [mechanism@C06,C08] fullSeq(evCall("(*CodeWriter).flushPending"), evCall("(*CodeWriter).emit")) && callArg[string]("(*CodeWriter).emit", 0, 1) == s
 //@   ensures [flushed] len(cw.pendings) == 0 && cw.IndentLevel == old(cw.IndentLevel)
@@ -257,7 +257,7 @@ func cwInv(cw *CodeWriter) bool {
 // WriteRune is used for single ASCII characters other than carriage return.
 // WriteRune = flush the deferred layout, then the character; the mapper advances by one column or one line.
 //@ func (cw *CodeWriter) WriteRune(r)
-//@   props C06 C08 C15 C01
+//@   props C06 C08 C15 C01 C11
 //@   use cwFrame
 //@   ensures [mechanism@C06,C08] fullSeq(evCall("(*CodeWriter).flushPending"), evCall("(*CodeWriter).separateSigns"), evOpt(cw.Mapper != nil && r == '\n', evCall("(*SourceMapper).AdvanceLine")), evOpt(cw.Mapper != nil && r != '\n', evCall("(*SourceMapper).AdvanceColumn")))
 //@   ensures [column@C08] implies(cw.Mapper != nil && r != '\n', callArg[int]("(*SourceMapper).AdvanceColumn", 0, 1) == 1)
@@ -267,7 +267,7 @@ func cwInv(cw *CodeWriter) bool {
 
 // The semicolon option decides only whether the terminator is written.
 //@ func (cw *CodeWriter) WriteSemi()
-//@   props C06 C08 C01
+//@   props C06 C08 C01 C11
 //@   use cwFrame
 //@   ensures [semi@C06] ncalls("(*CodeWriter).WriteRune") == ite(!cw.PrettyPrint || cw.WriteSemicolons, 1, 0) && implies(ncalls("(*CodeWriter).WriteRune") == 1, callArg[rune]("(*CodeWriter).WriteRune", 0, 1) == ';')
 //@   ensures [nothing@C06] implies(cw.PrettyPrint && !cw.WriteSemicolons, eq(cw.Builder, old(cw.Builder)) && eq(cw.pendings, old(cw.pendings)))
@@ -275,34 +275,34 @@ func cwInv(cw *CodeWriter) bool {
 //@   ensures [no-mapping@C08] cw.Mapper == nil || sourcemap.NumMappings(cw.Mapper) == old(sourcemap.NumMappings(cw.Mapper))
 
 //@ func (cw *CodeWriter) String()
-//@   props C06 C14
+//@   props C06 C14 C11
 //@   requires [cw] cw != nil
 
 //@ func (cw *CodeWriter) IncreaseIndent()
-//@   props C06 C08
+//@   props C06 C08 C11
 //@   use cwFrame layoutOnly
 //@   ensures [inc@C06] implies(cw.PrettyPrint, cw.IndentLevel == old(cw.IndentLevel)+1) && eq(cw.pendings, old(cw.pendings))
 
 //@ func (cw *CodeWriter) DecreaseIndent()
-//@   props C06 C08
+//@   props C06 C08 C11
 //@   use cwFrame layoutOnly
 //@   ensures [dec@C06] implies(cw.PrettyPrint && old(cw.IndentLevel) > 0, cw.IndentLevel == old(cw.IndentLevel)-1) && implies(old(cw.IndentLevel) == 0, cw.IndentLevel == 0) && eq(cw.pendings, old(cw.pendings))
 
 //@ func (cw *CodeWriter) WriteIndent()
-//@   props C06 C08
+//@   props C06 C08 C11
 //@   use cwFrame layoutOnly
 //@   ensures [indent] cw.IndentLevel == old(cw.IndentLevel)
 //@   ensures [pending@C06] implies(cw.PrettyPrint && (len(old(cw.pendings)) == 0 || old(cw.pendings)[len(old(cw.pendings))-1] != '\t'), eq(cw.pendings, push(old(cw.pendings), '\t')))
 //@   ensures [pending.dedup@C06] implies(cw.PrettyPrint && len(old(cw.pendings)) > 0 && old(cw.pendings)[len(old(cw.pendings))-1] == '\t', eq(cw.pendings, old(cw.pendings)))
 
 //@ func (cw *CodeWriter) WriteNewline()
-//@   props C06 C08
+//@   props C06 C08 C11
 //@   use cwFrame layoutOnly
 //@   ensures [indent] cw.IndentLevel == old(cw.IndentLevel)
 //@   ensures [pending@C06] implies(cw.PrettyPrint, len(cw.pendings) == 1 && cw.pendings[0] == '\n')
 
 //@ func (cw *CodeWriter) WriteSpace()
-//@   props C06 C08
+//@   props C06 C08 C11
 //@   use cwFrame layoutOnly
 //@   ensures [indent] cw.IndentLevel == old(cw.IndentLevel)
 //@   ensures [pending@C06] implies(cw.PrettyPrint && (len(old(cw.pendings)) == 0 || old(cw.pendings)[len(old(cw.pendings))-1] != ' '), eq(cw.pendings, push(old(cw.pendings), ' ')))
@@ -310,7 +310,7 @@ func cwInv(cw *CodeWriter) bool {
 
 // A mapping is recorded at the mapper's current generated position and points at the given source position.
 //@ func (cw *CodeWriter) AddMapping(pos)
-//@   props C08 C06 C14
+//@   props C08 C06 C14 C11
 //@   use cwFrame
 //@   ensures [flush-first@C08,C14] ncalls("(*CodeWriter).flushPending") == 1 && callOrder("(*CodeWriter).flushPending", 0, "(*SourceMapper).AddMapping", 0)
 //@   ensures [indent] cw.IndentLevel == old(cw.IndentLevel)
@@ -318,7 +318,7 @@ func cwInv(cw *CodeWriter) bool {
 //@   ensures [at-token@C08] len(cw.pendings) == 0
 
 //@ func (cw *CodeWriter) AddNamedMapping(sourceLine, sourceColumn, name)
-//@   props C08 C06 C14
+//@   props C08 C06 C14 C11
 //@   use cwFrame
 //@   ensures [flush-first@C08,C14] ncalls("(*CodeWriter).flushPending") == 1 && callOrder("(*CodeWriter).flushPending", 0, "(*SourceMapper).AddNamedMapping", 0)
 //@   ensures [indent] cw.IndentLevel == old(cw.IndentLevel)
@@ -328,7 +328,7 @@ func cwInv(cw *CodeWriter) bool {
 // Comments: compact output contains none; in pretty mode every write is comment text, "//", a space, a line break or
 // indentation, and the next token starts on a fresh line.
 //@ func (cw *CodeWriter) WriteLeadingComments(comments)
-//@   props C15 C06 C08
+//@   props C15 C06 C08 C11
 //@   use cwFrame
 //@   loop 1 invariant [frame] cwInv(cw) && J(cw) && NoFusion(cw) && cw.IndentLevel == old(cw.IndentLevel) && cw.PrettyPrint && (cw.Mapper == nil || sourcemap.NumMappings(cw.Mapper) == old(sourcemap.NumMappings(cw.Mapper)))
 //@   ensures [compact.none@C15] implies(!cw.PrettyPrint, eq(cw.Builder, old(cw.Builder)) && len(cw.pendings) == 0)
@@ -356,7 +356,7 @@ func slotPrecedence(e Expression) int     { return 0 }
 //@   use cwFrame writeTo
 
 //@ func slotPrecedence(e)
-//@   props C03
+//@   props C03 C11
 //@   abstract
 
 //@ ifacecontract WriteTo ast.slotWriteTo
@@ -364,7 +364,7 @@ func slotPrecedence(e Expression) int     { return 0 }
 
 
 //@ func (p *Program) WriteTo(cw)
-//@   props C01 C03 C06 C08 C15 C14
+//@   props C01 C03 C06 C08 C15 C14 C11
 //@   use cwFrame writeTo
 //@   assumes [wf] forall(0, len(p.Statements), func(k int) bool { return !isNil(p.Statements[k]) })
 //@   loop 1 invariant [frame] cwInv(cw) && J(cw) && NoFusion(cw) && cw.IndentLevel == atEntry(cw.IndentLevel)
@@ -373,25 +373,25 @@ func slotPrecedence(e Expression) int     { return 0 }
 //@   ensures [syntax] traceSeq()
 
 //@ func (ls *LetStatement) WriteTo(cw)
-//@   props C01 C03 C06 C08 C15 C14
+//@   props C01 C03 C06 C08 C15 C14 C11
 //@   use cwFrame writeTo
 //@   assumes [wf] ls.Name != nil && (ls.Value == nil || !isNil(ls.Value))
 //@   ensures [syntax] traceSeq(evLC(ls.Token.LeadingComments), evMap(ls.Token.Start), evStr("let "), evChild(ls.Name), evOpt(ls.Value != nil, evRune('=')), evOpt(ls.Value != nil, evNode(ls.Value)), evSemi())
 
 //@ func (rs *ReturnStatement) WriteTo(cw)
-//@   props C01 C03 C06 C08 C15 C14
+//@   props C01 C03 C06 C08 C15 C14 C11
 //@   use cwFrame writeTo
 //@   assumes [wf] rs.ReturnValue == nil || !isNil(rs.ReturnValue)
 //@   ensures [syntax] traceSeq(evLC(rs.Token.LeadingComments), evMap(rs.Token.Start), evStr("return"), evOpt(rs.ReturnValue != nil, evRune(' ')), evOpt(rs.ReturnValue != nil, evNode(rs.ReturnValue)), evSemi())
 
 //@ func (es *ExpressionStatement) WriteTo(cw)
-//@   props C01 C03 C06 C08 C15 C14
+//@   props C01 C03 C06 C08 C15 C14 C11
 //@   use cwFrame writeTo
 //@   assumes [wf] es.Expression == nil || !isNil(es.Expression)
 //@   ensures [syntax] traceSeq(evOpt(es.Expression != nil, evNode(es.Expression)), evOpt(es.Expression != nil, evSemi()))
 
 //@ func (fd *FunctionDeclaration) WriteTo(cw)
-//@   props C01 C03 C06 C08 C15 C14
+//@   props C01 C03 C06 C08 C15 C14 C11
 //@   use cwFrame writeTo
 //@   assumes [wf] fd.Name != nil && fd.Body != nil && forall(0, len(fd.Parameters), func(k int) bool { return fd.Parameters[k] != nil })
 //@   loop 1 invariant [frame] cwInv(cw) && J(cw) && NoFusion(cw) && cw.IndentLevel == atEntry(cw.IndentLevel)
@@ -400,7 +400,7 @@ func slotPrecedence(e Expression) int     { return 0 }
 //@   ensures [syntax] traceSeq(evRune(')'), evChild(fd.Body))
 
 //@ func (bs *BlockStatement) WriteTo(cw)
-//@   props C01 C03 C06 C08 C15 C14
+//@   props C01 C03 C06 C08 C15 C14 C11
 //@   use cwFrame writeTo
 //@   assumes [wf] forall(0, len(bs.Statements), func(k int) bool { return !isNil(bs.Statements[k]) })
 //@   loop 1 invariant [frame] cwInv(cw) && J(cw) && NoFusion(cw) && cw.IndentLevel == ite(cw.PrettyPrint, atEntry(cw.IndentLevel), old(cw.IndentLevel)) && implies(cw.PrettyPrint, cw.IndentLevel == old(cw.IndentLevel)+1)
@@ -409,94 +409,94 @@ func slotPrecedence(e Expression) int     { return 0 }
 //@   ensures [syntax] traceSeq(evLC(bs.RBrace.LeadingComments), evRune('}'))
 
 //@ func (ifs *IfStatement) WriteTo(cw)
-//@   props C01 C03 C06 C08 C15 C14
+//@   props C01 C03 C06 C08 C15 C14 C11
 //@   use cwFrame writeTo
 //@   assumes [wf] !isNil(ifs.Condition) && !isNil(ifs.ThenBranch) && (ifs.ElseBranch == nil || !isNil(ifs.ElseBranch))
 //@   ensures [syntax] traceSeq(evLC(ifs.Token.LeadingComments), evMap(ifs.Token.Start), evStr("if"), evRune('('), evNode(ifs.Condition), evRune(')'), evNode(ifs.ThenBranch), evOpt(ifs.ElseBranch != nil, evStr(" else ")), evOpt(ifs.ElseBranch != nil, evNode(ifs.ElseBranch)))
 
 //@ func (ws *WhileStatement) WriteTo(cw)
-//@   props C01 C03 C06 C08 C15 C14
+//@   props C01 C03 C06 C08 C15 C14 C11
 //@   use cwFrame writeTo
 //@   assumes [wf] !isNil(ws.Condition) && !isNil(ws.Body)
 //@   ensures [syntax] traceSeq(evLC(ws.Token.LeadingComments), evMap(ws.Token.Start), evStr("while"), evRune('('), evNode(ws.Condition), evRune(')'), evNode(ws.Body))
 
 //@ func (fs *ForStatement) WriteTo(cw)
-//@   props C01 C03 C06 C08 C15 C14
+//@   props C01 C03 C06 C08 C15 C14 C11
 //@   use cwFrame writeTo
 //@   assumes [wf] (fs.Init == nil || !isNil(fs.Init)) && (fs.Condition == nil || !isNil(fs.Condition)) && (fs.Update == nil || !isNil(fs.Update)) && !isNil(fs.Body)
 //@   ensures [syntax] traceSeq(evLC(fs.Token.LeadingComments), evMap(fs.Token.Start), evStr("for"), evRune('('), evOpt(fs.Init != nil, evNode(fs.Init)), evRune(';'), evOpt(fs.Condition != nil, evNode(fs.Condition)), evRune(';'), evOpt(fs.Update != nil, evNode(fs.Update)), evRune(')'), evNode(fs.Body))
 
 //@ func (i *Identifier) WriteTo(cw)
-//@   props C01 C03 C06 C08 C15 C14
+//@   props C01 C03 C06 C08 C15 C14 C11
 //@   use cwFrame writeTo
 //@   ensures [syntax] traceSeq(evLC(i.Token.LeadingComments), evNamedMap(i.Token.Start.Line, i.Token.Start.Column, i.Value), evStr(i.Value))
 
 //@ func (il *IntegerLiteral) WriteTo(cw)
-//@   props C01 C03 C06 C08 C15 C14 C07
+//@   props C01 C03 C06 C08 C15 C14 C07 C11
 //@   use cwFrame writeTo
 //@   ensures [syntax] traceSeq(evLC(il.Token.LeadingComments), evMap(il.Token.Start), evStr(il.Token.Literal))
 
 //@ func (fl *FloatLiteral) WriteTo(cw)
-//@   props C01 C03 C06 C08 C15 C14 C07
+//@   props C01 C03 C06 C08 C15 C14 C07 C11
 //@   use cwFrame writeTo
 //@   ensures [syntax] traceSeq(evLC(fl.Token.LeadingComments), evMap(fl.Token.Start), evStr(fl.Token.Literal))
 
 //@ func (bl *BooleanLiteral) WriteTo(cw)
-//@   props C01 C03 C06 C08 C15 C14 C07
+//@   props C01 C03 C06 C08 C15 C14 C07 C11
 //@   use cwFrame writeTo
 //@   ensures [syntax] traceSeq(evLC(bl.Token.LeadingComments), evMap(bl.Token.Start), evStr(bl.Token.Literal))
 
 //@ func (nl *NullLiteral) WriteTo(cw)
-//@   props C01 C03 C06 C08 C15 C14
+//@   props C01 C03 C06 C08 C15 C14 C11
 //@   use cwFrame writeTo
 //@   ensures [syntax] traceSeq(evLC(nl.Token.LeadingComments), evMap(nl.Token.Start), evStr("null"))
 
 //@ func (sl *StringLiteral) WriteTo(cw)
-//@   props C01 C03 C06 C08 C15 C14 C07
+//@   props C01 C03 C06 C08 C15 C14 C07 C11
 //@   use cwFrame writeTo
 //@   ensures [syntax] traceSeq(evLC(sl.Token.LeadingComments), evMap(sl.Token.Start), evRune('"'), evStr(sl.Value), evRune('"'))
 
 //@ func (sl *MultiStringLiteral) WriteTo(cw)
-//@   props C01 C03 C06 C08 C15 C14 C07
+//@   props C01 C03 C06 C08 C15 C14 C07 C11
 //@   use cwFrame writeTo
 //@   ensures [syntax] traceSeq(evLC(sl.Token.LeadingComments), evMap(sl.Token.Start), evRune('`'), evStr(callResult[string]("strings.ReplaceAll", 0)), evRune('`'))
 //@   ensures [backticks.escaped@C07] ncalls("strings.ReplaceAll") == 1 && callArg[string]("strings.ReplaceAll", 0, 0) == sl.Value && callArg[string]("strings.ReplaceAll", 0, 1) == "`" && callArg[string]("strings.ReplaceAll", 0, 2) == "\\`"
 
 //@ func (le *LetExpression) WriteTo(cw)
-//@   props C01 C03 C06 C08 C15 C14
+//@   props C01 C03 C06 C08 C15 C14 C11
 //@   use cwFrame writeTo
 //@   assumes [wf] le.Name != nil && (le.Value == nil || !isNil(le.Value))
 //@   ensures [syntax] traceSeq(evLC(le.Token.LeadingComments), evMap(le.Token.Start), evStr("let "), evChild(le.Name), evOpt(le.Value != nil, evRune('=')), evOpt(le.Value != nil, evNode(le.Value)))
 
 //@ func (be *BinaryExpression) WriteTo(cw)
-//@   props C01 C03 C06 C08 C15 C14
+//@   props C01 C03 C06 C08 C15 C14 C11
 //@   use cwFrame writeTo
 //@   assumes [wf] !isNil(be.Left) && !isNil(be.Right)
 //@   ensures [parens.subject@C03] ncalls("slotPrecedence") == 2 && callArg[Expression]("slotPrecedence", 0, 0) == be.Left && callArg[Expression]("slotPrecedence", 1, 0) == be.Right
 //@   ensures [syntax] traceSeq(evOpt(parensLeft(astLevel(be.Token.Type), callResult[int]("slotPrecedence", 0)), evRune('(')), evNode(be.Left), evOpt(parensLeft(astLevel(be.Token.Type), callResult[int]("slotPrecedence", 0)), evRune(')')), evLC(be.Token.LeadingComments), evMap(be.Token.Start), evStr(be.Operator), evOpt(parensRight(astLevel(be.Token.Type), callResult[int]("slotPrecedence", 1)), evRune('(')), evNode(be.Right), evOpt(parensRight(astLevel(be.Token.Type), callResult[int]("slotPrecedence", 1)), evRune(')')))
 
 //@ func (ue *UnaryExpression) WriteTo(cw)
-//@   props C01 C03 C06 C08 C15 C14
+//@   props C01 C03 C06 C08 C15 C14 C11
 //@   use cwFrame writeTo
 //@   assumes [wf] !isNil(ue.Right)
 //@   ensures [parens.subject@C03] ncalls("slotPrecedence") == 1 && callArg[Expression]("slotPrecedence", 0, 0) == ue.Right
 //@   ensures [syntax] traceSeq(evLC(ue.Token.LeadingComments), evMap(ue.Token.Start), evStr(ue.Operator), evOpt(parensLeft(PrecedenceUnary, callResult[int]("slotPrecedence", 0)), evRune('(')), evNode(ue.Right), evOpt(parensLeft(PrecedenceUnary, callResult[int]("slotPrecedence", 0)), evRune(')')))
 
 //@ func (pe *PostfixExpression) WriteTo(cw)
-//@   props C01 C03 C06 C08 C15 C14
+//@   props C01 C03 C06 C08 C15 C14 C11
 //@   use cwFrame writeTo
 //@   assumes [wf] !isNil(pe.Left)
 //@   ensures [parens.subject@C03] ncalls("slotPrecedence") == 1 && callArg[Expression]("slotPrecedence", 0, 0) == pe.Left
 //@   ensures [syntax] traceSeq(evLC(pe.Token.LeadingComments), evOpt(parensLeft(PrecedencePostfix, callResult[int]("slotPrecedence", 0)), evRune('(')), evNode(pe.Left), evOpt(parensLeft(PrecedencePostfix, callResult[int]("slotPrecedence", 0)), evRune(')')), evMap(pe.Token.Start), evStr(pe.Operator))
 
 //@ func (ge *GroupedExpression) WriteTo(cw)
-//@   props C01 C03 C06 C08 C15 C14
+//@   props C01 C03 C06 C08 C15 C14 C11
 //@   use cwFrame writeTo
 //@   assumes [wf] !isNil(ge.Expression)
 //@   ensures [syntax] traceSeq(evLC(ge.Token.LeadingComments), evMap(ge.Token.Start), evRune('('), evNode(ge.Expression), evLC(ge.RParen.LeadingComments), evRune(')'))
 
 //@ func (ce *CallExpression) WriteTo(cw)
-//@   props C01 C03 C06 C08 C15 C14
+//@   props C01 C03 C06 C08 C15 C14 C11
 //@   use cwFrame writeTo
 //@   assumes [wf] !isNil(ce.Function) && forall(0, len(ce.Arguments), func(k int) bool { return !isNil(ce.Arguments[k]) })
 //@   loop 1 invariant [frame] cwInv(cw) && J(cw) && NoFusion(cw) && implies(cw.PrettyPrint, cw.IndentLevel == old(cw.IndentLevel)+1) && implies(!cw.PrettyPrint, cw.IndentLevel == old(cw.IndentLevel))
@@ -505,25 +505,25 @@ func slotPrecedence(e Expression) int     { return 0 }
 //@   ensures [syntax] traceSeq(evRune(')'))
 
 //@ func (me *MemberExpression) WriteTo(cw)
-//@   props C01 C03 C06 C08 C15 C14
+//@   props C01 C03 C06 C08 C15 C14 C11
 //@   use cwFrame writeTo
 //@   assumes [wf] !isNil(me.Object) && !isNil(me.Property)
 //@   ensures [syntax] traceSeq(evNode(me.Object), evLC(me.Token.LeadingComments), evMap(me.Token.Start), evOpt(me.Computed, evRune('[')), evOpt(!me.Computed, evRune('.')), evNode(me.Property), evOpt(me.Computed, evRune(']')))
 
 //@ func (ae *AssignmentExpression) WriteTo(cw)
-//@   props C01 C03 C06 C08 C15 C14
+//@   props C01 C03 C06 C08 C15 C14 C11
 //@   use cwFrame writeTo
 //@   assumes [wf] !isNil(ae.Left) && !isNil(ae.Value)
 //@   ensures [syntax] traceSeq(evNode(ae.Left), evLC(ae.Token.LeadingComments), evMap(ae.Token.Start), evRune('='), evNode(ae.Value))
 
 //@ func (cae *CompoundAssignmentExpression) WriteTo(cw)
-//@   props C01 C03 C06 C08 C15 C14
+//@   props C01 C03 C06 C08 C15 C14 C11
 //@   use cwFrame writeTo
 //@   assumes [wf] !isNil(cae.Left) && !isNil(cae.Value)
 //@   ensures [syntax] traceSeq(evNode(cae.Left), evLC(cae.Token.LeadingComments), evMap(cae.Token.Start), evStr(cae.Operator), evRune('='), evNode(cae.Value))
 
 //@ func (fe *FunctionExpression) WriteTo(cw)
-//@   props C01 C03 C06 C08 C15 C14
+//@   props C01 C03 C06 C08 C15 C14 C11
 //@   use cwFrame writeTo
 //@   assumes [wf] fe.Body != nil && forall(0, len(fe.Parameters), func(k int) bool { return fe.Parameters[k] != nil })
 //@   loop 1 invariant [frame] cwInv(cw) && J(cw) && NoFusion(cw) && cw.IndentLevel == atEntry(cw.IndentLevel)
@@ -532,7 +532,7 @@ func slotPrecedence(e Expression) int     { return 0 }
 //@   ensures [syntax] traceSeq(evRune(')'), evChild(fe.Body))
 
 //@ func (al *ArrayLiteral) WriteTo(cw)
-//@   props C01 C03 C06 C08 C15 C14
+//@   props C01 C03 C06 C08 C15 C14 C11
 //@   use cwFrame writeTo
 //@   assumes [wf] forall(0, len(al.Elements), func(k int) bool { return !isNil(al.Elements[k]) })
 //@   loop 1 invariant [frame] cwInv(cw) && J(cw) && NoFusion(cw) && implies(cw.PrettyPrint, cw.IndentLevel == old(cw.IndentLevel)+1) && implies(!cw.PrettyPrint, cw.IndentLevel == old(cw.IndentLevel))
@@ -541,7 +541,7 @@ func slotPrecedence(e Expression) int     { return 0 }
 //@   ensures [syntax] traceSeq(evLC(al.RBracket.LeadingComments), evRune(']'))
 
 //@ func (ol *ObjectLiteral) WriteTo(cw)
-//@   props C01 C03 C06 C08 C15 C14
+//@   props C01 C03 C06 C08 C15 C14 C11
 //@   use cwFrame writeTo
 //@   assumes [wf] forall(0, len(ol.Properties), func(k int) bool { return !isNil(ol.Properties[k].Key) && !isNil(ol.Properties[k].Value) })
 //@   loop 1 invariant [frame] cwInv(cw) && J(cw) && NoFusion(cw) && implies(cw.PrettyPrint, cw.IndentLevel == old(cw.IndentLevel)+1) && implies(!cw.PrettyPrint, cw.IndentLevel == old(cw.IndentLevel))
@@ -552,77 +552,77 @@ func slotPrecedence(e Expression) int     { return 0 }
 // ---- precedence of node kinds (C03) ----
 
 //@ func (le *LetExpression) Precedence()
-//@   props C03
+//@   props C03 C11
 //@   ensures [level@C03] result == PrecedenceAssignment
 
 //@ func (ue *UnaryExpression) Precedence()
-//@   props C03
+//@   props C03 C11
 //@   ensures [level@C03] result == PrecedenceUnary
 
 //@ func (pe *PostfixExpression) Precedence()
-//@   props C03
+//@   props C03 C11
 //@   ensures [level@C03] result == PrecedencePostfix
 
 //@ func (ce *CallExpression) Precedence()
-//@   props C03
+//@   props C03 C11
 //@   ensures [level@C03] result == PrecedenceCall
 
 //@ func (me *MemberExpression) Precedence()
-//@   props C03
+//@   props C03 C11
 //@   ensures [level@C03] result == PrecedenceMember
 
 //@ func (ae *AssignmentExpression) Precedence()
-//@   props C03
+//@   props C03 C11
 //@   ensures [level@C03] result == PrecedenceAssignment
 
 //@ func (cae *CompoundAssignmentExpression) Precedence()
-//@   props C03
+//@   props C03 C11
 //@   ensures [level@C03] result == PrecedenceAssignment
 
 //@ func (i *Identifier) Precedence()
-//@   props C03
+//@   props C03 C11
 //@   ensures [level@C03] result == PrecedenceAtomic
 
 //@ func (il *IntegerLiteral) Precedence()
-//@   props C03
+//@   props C03 C11
 //@   ensures [level@C03] result == PrecedenceAtomic
 
 //@ func (fl *FloatLiteral) Precedence()
-//@   props C03
+//@   props C03 C11
 //@   ensures [level@C03] result == PrecedenceAtomic
 
 //@ func (sl *StringLiteral) Precedence()
-//@   props C03
+//@   props C03 C11
 //@   ensures [level@C03] result == PrecedenceAtomic
 
 //@ func (sl *MultiStringLiteral) Precedence()
-//@   props C03
+//@   props C03 C11
 //@   ensures [level@C03] result == PrecedenceAtomic
 
 //@ func (bl *BooleanLiteral) Precedence()
-//@   props C03
+//@   props C03 C11
 //@   ensures [level@C03] result == PrecedenceAtomic
 
 //@ func (nl *NullLiteral) Precedence()
-//@   props C03
+//@   props C03 C11
 //@   ensures [level@C03] result == PrecedenceAtomic
 
 //@ func (ge *GroupedExpression) Precedence()
-//@   props C03
+//@   props C03 C11
 //@   ensures [level@C03] result == PrecedenceAtomic
 
 //@ func (fe *FunctionExpression) Precedence()
-//@   props C03
+//@   props C03 C11
 //@   ensures [level@C03] result == PrecedenceAtomic
 
 //@ func (al *ArrayLiteral) Precedence()
-//@   props C03
+//@   props C03 C11
 //@   ensures [level@C03] result == PrecedenceAtomic
 
 //@ func (ol *ObjectLiteral) Precedence()
-//@   props C03
+//@   props C03 C11
 //@   ensures [level@C03] result == PrecedenceAtomic
 
 //@ func (be *BinaryExpression) Precedence()
-//@   props C03
+//@   props C03 C11
 //@   ensures [level@C03] result == astLevel(be.Token.Type)
